@@ -675,6 +675,12 @@ func (m *machine) lookup(instr *ssa.Lookup, x, idx value) value {
 // conversions
 
 func (m *machine) conv(tDst, tSrc types.Type, x value) value {
+	if _, ok := x.(*docBytes); ok {
+		if b, ok := tDst.Underlying().(*types.Basic); ok && b.Kind() == types.String {
+			return "<json documents>"
+		}
+		panic(engineErr("json document stream used as something other than a decoder input"))
+	}
 	if sb, ok := x.(*symBytes); ok {
 		if b, ok := tDst.Underlying().(*types.Basic); ok && b.Kind() == types.String {
 			return sb.str
